@@ -144,10 +144,12 @@ func c07Sessions(e *c07Env) [][]vfPkt {
 			{Type: rfRealpath, ID: n(), Path: e.p("d/../a")},
 			{Type: rfStat, ID: n(), Path: e.p("lnk")},
 		},
-		{ // 4: extensions
+		{ // 4: extensions (an unknown one first: what it leaves behind in the session must not soften the fate of a later malformed packet)
+			{Type: rfExtended, ID: n(), Ext: "nonexistent@example.com", ExtData: []byte{0, 0, 0, 1, 'x'}},
 			{Type: rfExtended, ID: n(), Ext: "statvfs@openssh.com", Path: e.root()},
 			{Type: rfExtended, ID: n(), Ext: "posix-rename@openssh.com", Path: e.p("a"), Path2: e.p("b")},
 			{Type: rfExtended, ID: n(), Ext: "hardlink@openssh.com", Path: e.p("b"), Path2: e.p("hl")},
+			{Type: rfMkdir, ID: n(), Path: e.p("after-extensions"), Attrs: vfAttrs{Flags: rfAttrPerm, Perm: 0o40755}},
 			{Type: rfExtended, ID: n(), Ext: "nonexistent@example.com", ExtData: []byte{0, 0, 0, 1, 'x'}},
 		},
 		{ // 5: read an existing file
